@@ -23,6 +23,7 @@ class NextLike:
     (`fn next_u64(&mut self) -> u64 { let d = self.next(); .. }`)"""
 
     def __init__(self, prog, adt, nxt):
+        self.base = nxt
         self.names = {nxt.nname}
         for h in prog.methods_of(adt, None):
             if h is nxt or h.get("impl_trait") or h.kind == "closure":
@@ -224,6 +225,8 @@ def _idx_of(f, e):
 
 
 def check_draw_integers(ck, prog, label, f, nxt):
+    # private helpers (`next_masked_integer`, `reseed_with_int`) are part of the method; `next` stays a call (it is what the rule looks for)
+    f = prog.inl(f, keep=(nxt.base.id,))
     g = flow(f)
     ss = eff_stores(prog, f, "seed")
     cs = eff_stores(prog, f, "counter")
